@@ -40,11 +40,8 @@ def parseParams (a b c d : String) : Option Params :=
   | some nb0, some hint, some maxb, some hm => some ⟨nb0.toNat, hint, maxb, hm.toNat⟩
   | _, _, _, _ => none
 
-def hfOf (hmode : Nat) : Nat → Nat → Nat :=
-  if hmode = 0 then fun k nb => rehash k nb else fun k nb => rehash (k >>> 3) nb
-
 def mkState (p : Params) (progs : List (List Op)) : State :=
-  init { hf := hfOf p.hmode, hint := p.hint, maxb := p.maxb, nb0 := p.nb0, progs := progs }
+  init (mkConfig p.hmode p.hint p.maxb p.nb0 progs)
 
 /-- run thread `t` until it is idle with an empty program -/
 def runThread : Nat → State → Nat → State
